@@ -107,6 +107,16 @@ fn adv_text(r: &mut Rng) -> (String, &'static str) {
     }
 }
 
+/// one statement record in ten carries no text at all (no payee, no reference / code, no
+/// note): the importer then prints the header `DATE * ` and the postings directly under it
+fn blank_record(r: &mut Rng, st: &mut Stats) -> bool {
+    let b = r.chance(1, 10);
+    if b {
+        st.count("record:no_payee_no_code_no_note");
+    }
+    b
+}
+
 fn code_text(r: &mut Rng) -> (Option<String>, &'static str) {
     match r.below(12) {
         0 | 1 => (None, "none"),
@@ -226,8 +236,11 @@ fn gen_camt(r: &mut Rng, st: &mut Stats) -> Run {
     // the entries of a statement lie within a week that reaches or crosses a calendar boundary
     let week = caldate::Window::new(r, caldate::YEAR_LO, caldate::YEAR_HI, 6);
     for k in 0..n {
-        let (payee, ptag) = adv_text(r);
-        let (code, cotag) = code_text(r);
+        // one record in ten states nothing but date and amount: no payee text, no reference.
+        // It is printed as `DATE * ` with the postings directly below.
+        let blank = blank_record(r, st);
+        let (payee, ptag) = if blank { (String::new(), "empty") } else { adv_text(r) };
+        let (code, cotag) = if blank { (None, "none") } else { code_text(r) };
         st.count(&format!("text:payee:{}", ptag));
         st.count(&format!("text:code:{}", cotag));
         let credit = r.chance(2, 5);
@@ -289,8 +302,8 @@ fn gen_camt(r: &mut Rng, st: &mut Stats) -> Run {
         writeln!(y, "format:\n{}", p.trim_end()).unwrap();
     }
     let dot = if r.chance(1, 2) { "(?s)" } else { "" };
-    writeln!(y, "rewrite:\n  - matcher:\n      additional_transaction_info: {}", yaml_str(&format!("{}^K\\d+ (?P<payee>.*)$", dot))).unwrap();
-    writeln!(y, "  - matcher:\n      additional_entry_info: {}", yaml_str(&format!("{}^N\\d+ (?P<payee>.*)$", dot))).unwrap();
+    writeln!(y, "rewrite:\n  - matcher:\n      additional_transaction_info: {}", yaml_str(&format!("{}^K\\d+ ?(?P<payee>.*)$", dot))).unwrap();
+    writeln!(y, "  - matcher:\n      additional_entry_info: {}", yaml_str(&format!("{}^N\\d+ ?(?P<payee>.*)$", dot))).unwrap();
     writeln!(y, "  - matcher:\n      payee: \"(?i)migros|coop\"\n    account: Expenses:Grocery").unwrap();
     writeln!(y, "  - matcher:\n      payee: \"Okane\"\n    account: \"Assets:Wire:Money Bank\"\n    pending: true").unwrap();
     // the opening-balance transaction is a record of the statement as well
@@ -367,8 +380,9 @@ fn gen_csv(r: &mut Rng, st: &mut Stats) -> Run {
             writeln!(y, "  fields:\n    date: Date\n    payee: Payee\n    amount: Amount\n    balance: Balance\n    note: Note\n    category: Cat\n    commodity: Ccy\n    charge: Fee").unwrap();
             t.push_str("Date,Payee,Amount,Balance,Note,Cat,Ccy,Fee\n");
             for k in 0..n {
-                let (payee, ptag) = text_of(r, junk_row.is_some());
-                let (note, ntag) = text_of(r, junk_row.is_some());
+                let blank = blank_record(r, st);
+                let (payee, ptag) = if blank { (String::new(), "empty") } else { text_of(r, junk_row.is_some()) };
+                let (note, ntag) = if blank { (String::new(), "empty") } else { text_of(r, junk_row.is_some()) };
                 let (ccy, ctag) = comm_of(r, "CHF", junk_row.is_some());
                 st.count(&format!("text:payee:{}", ptag));
                 st.count(&format!("text:note:{}", ntag));
@@ -405,7 +419,9 @@ fn gen_csv(r: &mut Rng, st: &mut Stats) -> Run {
             writeln!(y, "  fields:\n    date: Date\n    payee: Payee\n    credit: In\n    debit: Out\n    secondary_amount: SAmt\n    secondary_commodity: SCcy\n    rate: Rate").unwrap();
             t.push_str("Date,Payee,In,Out,SAmt,SCcy,Rate\n");
             for k in 0..n {
-                let (payee, ptag) = text_of(r, junk_row.is_some());
+                // a blank record has an empty Payee cell: no rule captures a code or a payee
+                let blank = blank_record(r, st);
+                let (payee, ptag) = if blank { (String::new(), "empty") } else { text_of(r, junk_row.is_some()) };
                 st.count(&format!("text:payee:{}", ptag));
                 let credit = r.chance(1, 2);
                 // usually unsigned; a negative figure in the credit (debit) column is a reversal
@@ -439,7 +455,9 @@ fn gen_csv(r: &mut Rng, st: &mut Stats) -> Run {
                 let (dtext, idate) = row_date(r, st);
                 it.date = idate;
                 intended.push(it);
-                writeln!(t, "{},{},{},{},{},{},{}", csv_field(&dtext), csv_field(&format!("Debit {} {}", if junk_row.is_some() { *r.pick(&["1234", "77", "12"]) } else { *r.pick(&["1234", "A)B", "", "77", "Z-9", "8/8", "x;y", "12"]) }, payee)),
+                let code_word = if junk_row.is_some() { *r.pick(&["1234", "77", "12"]) } else { *r.pick(&["1234", "A)B", "", "77", "Z-9", "8/8", "x;y", "12"]) };
+                let payee_cell = if blank { String::new() } else { format!("Debit {} {}", code_word, payee) };
+                writeln!(t, "{},{},{},{},{},{},{}", csv_field(&dtext), csv_field(&payee_cell),
                     csv_field(if credit { &a } else { "" }), csv_field(if credit { "" } else { &a }),
                     csv_field(&samt), csv_field(&sc), csv_field(&rate)).unwrap();
             }
@@ -593,8 +611,17 @@ fn gen_csv_text_first(r: &mut Rng, st: &mut Stats) -> Run {
     t.push('\n');
     let mut intended: Vec<Intent> = Vec::new();
     for _ in 0..n {
-        let (payee, pclass) = special_start_text(r);
-        let (note, nclass) = special_start_text(r);
+        // a blank record: payee and note cells both empty or white space only
+        let blank = blank_record(r, st);
+        let blank_cell = |r: &mut Rng| -> (String, &'static str) {
+            if r.chance(2, 3) {
+                (String::new(), "empty")
+            } else {
+                ((*r.pick(&[" ", "\t", "  "])).to_string(), "mark_only")
+            }
+        };
+        let (payee, pclass) = if blank { blank_cell(r) } else { special_start_text(r) };
+        let (note, nclass) = if blank { blank_cell(r) } else { special_start_text(r) };
         st.count(&format!("csv_first_cell:{}", if first == 0 { pclass } else { nclass }));
         st.count(&format!("text:payee:start_{}", pclass));
         st.count(&format!("text:note:start_{}", nclass));
